@@ -239,6 +239,60 @@ fn held_value_case(index: u64, st: &mut Stats) {
     }
 }
 
+/// Closure-capture family (C10): a closure reading a mutable variable is created in one of 7 expression
+/// positions (often right after another read of the same variable in the same expression), its body reads
+/// the variable in 4 forms, the variable is a local or a global and is changed afterwards by the creator
+/// or through a sibling closure: the closure must see the new value (captured by reference).
+const CAPTURE_SLOTS: u64 = 7 * 4 * 2 * 2;
+
+fn capture_case(index: u64, st: &mut Stats) {
+    let pos = (index % 7) as usize;
+    let form = ((index / 7) % 4) as usize;
+    let global = (index / 28) % 2 == 1;
+    let sibling = (index / 56) % 2 == 1;
+    let body = ["x", "ret x", "y :: x\ny", "x + 0"][form];
+    let lam = |ind: usize| {
+        let pad = " ".repeat(ind);
+        format!("fn -> int do\n{}\n{}end", body.lines().map(|l| format!("{}    {}", pad, l)).collect::<Vec<_>>().join("\n"), pad)
+    };
+    let pos_names = ["definition", "blob field after a field reading the variable", "tuple element after an element reading the variable", "call argument after an argument reading the variable", "if-expression arm (condition reads the variable)", "returned through a function taking the closure", "list element then fold"];
+    let create = match pos {
+        0 => format!("g :: {}", lam(4)),
+        1 => format!("h :: Holder {{ first: x, get: {} }}\n    g :: h.get", lam(4)),
+        2 => format!("t :: (x, {})\n    g :: t[1]", lam(4)),
+        3 => format!("g :: idf2(x, {})", lam(4)),
+        4 => format!("g :: if x > 0 do\n        {}\n    else do\n        fn -> int do\n            0\n        end\n    end", lam(8)),
+        5 => format!("g :: idf1({})", lam(4)),
+        _ => format!("l :: [{}]\n    g :: fn -> int do\n        fold(l, 0, pu f, acc -> acc end)\n        x\n    end", lam(4)),
+    };
+    let change1 = if sibling { "inc()" } else { "x += 1" };
+    let decls = "Holder :: blob {\n    first: int,\n    get: fn -> int,\n}\n\nidf2 :: fn a: int, f: fn -> int -> fn -> int do\n    f\nend\n\nidf1 :: fn f: fn -> int -> fn -> int do\n    f\nend\n\n";
+    let text = format!(
+        "{}{}start :: fn do\n{}    inc :: fn do\n        x += 1\n    end\n    {}\n    {}\n    print(g())\n    x = x + 5\n    print(g())\n    print(x)\nend\n",
+        decls,
+        if global { "x := 10\n\n" } else { "" },
+        if global { "" } else { "    x := 10\n" },
+        create,
+        change1
+    );
+    let expect = vec!["11".to_string(), "16".to_string(), "16".to_string()];
+    let what = format!("closure created as {}, body `{}`, {} variable, changed {}", pos_names[pos], body.replace('\n', " ; "), if global { "global" } else { "local" }, if sibling { "through a sibling closure" } else { "by the creator" });
+    st.count("capture_programs");
+    st.count(&format!("capture:position:{}", pos_names[pos]));
+    let viol = |sig: &str, obs: String| Violation { signature: sig.to_string(), hazard: None, case: index, detail: J::obj().with("what", J::s(what.clone())).with("program", J::s(text.clone())).with("expected_prints", J::Arr(expect.iter().map(|e| J::s(e.clone())).collect())).with("observed", J::s(obs)) };
+    match sy::compile_files(&sy::one_file(&text), "main.sy", &sy::CompileOpts { fuel: Some(crate::rel::CAMPAIGN_FUEL), ..Default::default() }) {
+        sy::Compiled::Ok(b) => match lua::run_simple(&String::from_utf8_lossy(&b)) {
+            lua::Simple::Prints(p) if p == expect => {
+                st.count("capture_programs_as_expected");
+                st.nontrivial(hash64(text.as_bytes()));
+            }
+            lua::Simple::Prints(p) => st.violation(viol("capture:closure-does-not-see-the-variable", format!("{:?}", p))),
+            other => st.violation(viol("capture:run-failed", format!("{:?}", other).chars().take(300).collect())),
+        },
+        other => st.violation(viol("capture:template-rejected", other.brief())),
+    }
+}
+
 fn corpus_files() -> &'static (Vec<String>, sy::Files) {
     static C: std::sync::OnceLock<(Vec<String>, sy::Files)> = std::sync::OnceLock::new();
     C.get_or_init(|| {
@@ -368,6 +422,10 @@ impl Check for Traced {
         }
         if self.prop == "C10" && index < HELD_SLOTS {
             held_value_case(index, st);
+            return;
+        }
+        if self.prop == "C10" && index < HELD_SLOTS + CAPTURE_SLOTS {
+            capture_case(index - HELD_SLOTS, st);
             return;
         }
         let mut rng = Rng::for_case(ctx.seed, self.prop, index);
